@@ -79,19 +79,29 @@ func VerifSetTieBreaker(a *Agent, tb uint64) error {
 
 // VerifAdvance moves every timestamp the agent keeps back by d: virtual time advances by d.
 func VerifAdvance(a *Agent, d time.Duration) error {
+	return VerifAdvanceBefore(a, d, time.Time{})
+}
+
+// VerifAdvanceBefore moves the timestamps that are older than cutoff (all of them when cutoff is
+// zero) back by d. With a negative d it cancels real time that those timestamps have aged.
+func VerifAdvanceBefore(a *Agent, d time.Duration, cutoff time.Time) error { //nolint:cyclop,gocognit
+	old := func(t time.Time) bool { return !t.IsZero() && (cutoff.IsZero() || t.Before(cutoff)) }
+
 	return a.loop.Run(a.loop, func(_ context.Context) {
 		for i := range a.pendingBindingRequests {
-			a.pendingBindingRequests[i].timestamp = a.pendingBindingRequests[i].timestamp.Add(-d)
+			if old(a.pendingBindingRequests[i].timestamp) {
+				a.pendingBindingRequests[i].timestamp = a.pendingBindingRequests[i].timestamp.Add(-d)
+			}
 		}
 		shift := func(c Candidate) {
 			setter, ok := c.(candidateActivitySetter)
 			if !ok {
 				return
 			}
-			if t := c.LastReceived(); !t.IsZero() {
+			if t := c.LastReceived(); old(t) {
 				setter.setLastReceived(t.Add(-d))
 			}
-			if t := c.LastSent(); !t.IsZero() {
+			if t := c.LastSent(); old(t) {
 				setter.setLastSent(t.Add(-d))
 			}
 		}
@@ -131,17 +141,19 @@ func VerifAdvance(a *Agent, d time.Duration) error {
 		}
 		switch s := a.getSelector().(type) {
 		case *controllingSelector:
-			s.startTime = s.startTime.Add(-d)
+			if old(s.startTime) {
+				s.startTime = s.startTime.Add(-d)
+			}
 		case *liteSelector:
-			if cs, ok := s.pairCandidateSelector.(*controllingSelector); ok {
+			if cs, ok := s.pairCandidateSelector.(*controllingSelector); ok && old(cs.startTime) {
 				cs.startTime = cs.startTime.Add(-d)
 			}
 		}
-		if !a.lastRenominationTime.IsZero() {
+		if old(a.lastRenominationTime) {
 			a.lastRenominationTime = a.lastRenominationTime.Add(-d)
 		}
 		if v, ok := verifContacts.Load(a); ok {
-			if vc, _ := v.(*verifContact); vc != nil && !vc.checkingDuration.IsZero() {
+			if vc, _ := v.(*verifContact); vc != nil && old(*vc.checkingDuration) {
 				*vc.checkingDuration = vc.checkingDuration.Add(-d)
 			}
 		}
